@@ -14,6 +14,8 @@ MODEL_TARGETS = ["theories/Analysis.vo"]
 TRANSLATORS = ["semiring", "rules"]
 LEVEL_TEXT = ("Theorems in coq/props/C18.v: in the Coq model of Analysis.compute_relation every supported unary form is analysed exactly as its plain "
               "rewriting (same index, relation, exit flag and delta graph), in any statement position (the model is a function of the sub-results); "
+              "cast transparency for all trees in the dispatch model (one cast around a whole right-hand side, with the weakest side condition and the "
+              "counterexample of two nested casts; any number of casts around the operands of a binary operation); "
               "the model is tied to the code on programs containing each form at top level, in branches and in loop bodies; the real tool is run on "
               "sugar/plain twin programs and must give identical results.")
 LEVEL_NOTE = "Trusted: Coq kernel, reader tools/cread.py (which looks through casts exactly where compute_relation/rm_cast do), generators."
